@@ -301,6 +301,69 @@ func c08One(c *vh.Ctx, cs c08Case) {
 	c.Violation(fmt.Sprintf("C08/%s/%s-ending-in-%s/routing-%s", clause, pos, last, cs.Routing), detail, cs)
 }
 
+// c08Snapshots: what is reported is what was emitted - a message is the value it had when _.out was called, whatever
+// the script does to that value (or to what it was built from) afterwards.
+func c08Snapshots(c *vh.Ctx) {
+	cases := []struct {
+		name, src string
+		want      []interface{}
+	}{
+		{"bindings-value-by-reference", `_.out({order: _.bindings.o}); _.bindings.o.state = "packed"; _.out({order: _.bindings.o}); _.bindings.o.state = "shipped"; _.out({order: _.bindings.o}); return _.bindings;`,
+			[]interface{}{M{"order": M{"state": "new"}}, M{"order": M{"state": "packed"}}, M{"order": M{"state": "shipped"}}}},
+		{"local-object", `var m = {n: 1}; _.out(m); m.n = 2; _.out(m); m.extra = [1]; return _.bindings;`, []interface{}{M{"n": 1.0}, M{"n": 2.0}}},
+		{"local-array", `var a = [1]; _.out({a: a}); a.push(2); _.out({a: a}); a.length = 0; return _.bindings;`, []interface{}{M{"a": []interface{}{1.0}}, M{"a": []interface{}{1.0, 2.0}}}},
+		{"the-bindings-themselves", `_.out(_.bindings); _.bindings.later = true; delete _.bindings.o; return _.bindings;`, []interface{}{M{"o": M{"state": "new"}, "l": []interface{}{1.0}}}},
+		// (elements are assigned, not pushed: what push does to an array that belongs to the host is the interpreter's
+		// business, not a question of emission)
+		{"bindings-array-by-reference", `_.out({l: _.bindings.l}); _.bindings.l[0] = 9; _.out({l: _.bindings.l}); _.bindings.l[0] = 7; return _.bindings;`, []interface{}{M{"l": []interface{}{1.0}}, M{"l": []interface{}{9.0}}}},
+		{"edit-then-fail", `_.out({order: _.bindings.o}); _.bindings.o.state = "packed"; throw "no";`, nil},
+	}
+	for _, tc := range cases {
+		for _, via := range []string{"walk", "crew"} {
+			c.Eval()
+			c.Nontrivial()
+			spec := &core.Spec{Name: "snap", Nodes: map[string]*core.Node{
+				"start": {Branches: &core.Branches{Type: "message", Branches: []*core.Branch{{Pattern: M{"go": "?g"}, Target: "act"}}}},
+				"act":   {ActionSource: &core.ActionSource{Interpreter: "ecmascript", Source: "delete _.bindings[\"?g\"];\n" + tc.src}, Branches: &core.Branches{Branches: []*core.Branch{{Target: "start"}}}}}}
+			start := M{"o": M{"state": "new"}, "l": []interface{}{1.0}}
+			var got []interface{}
+			if via == "walk" {
+				if err := spec.Compile(context.Background(), nil, true); err != nil {
+					c.NotExhaustive("snapshot spec does not compile: " + err.Error())
+					return
+				}
+				o := doWalk(spec, "start", start, []interface{}{M{"go": 1.0}}, 10, "")
+				if o.Panicked {
+					c.Violation("C08/panic/"+o.Where, o.PMsg, map[string]interface{}{"snapshots": tc.name})
+					continue
+				}
+				if o.W != nil {
+					got = emittedOf(o.W)
+				}
+			} else {
+				nc := &nullCouplings{in: make(chan interface{}, 8), out: make(chan *sio.Result, 8)}
+				cr, err := sio.NewCrew(context.Background(), &sio.CrewConf{Id: "t", Ctl: &core.Control{Limit: 100}}, nc)
+				if err != nil {
+					continue
+				}
+				if err := cr.SetMachine(context.Background(), "m", &crew.SpecSource{Inline: spec}, &core.State{NodeName: "start", Bs: cloneM(start)}); err != nil {
+					continue
+				}
+				r, err := cr.ProcessMsg(context.Background(), M{"go": 1.0, "to": "m"})
+				if err != nil {
+					continue
+				}
+				for _, batch := range r.Emitted {
+					got = append(got, batch...)
+				}
+			}
+			if rstep.Canon(nz(got)) != rstep.Canon(nz(tc.want)) {
+				c.Violation("C08/emitted-is-not-what-was-emitted/"+tc.name+"/"+via, fmt.Sprintf("the action `%s` (bindings %s) is reported to have emitted %s; it emitted %s", tc.src, rstep.Canon(start), rstep.Canon(nz(got)), rstep.Canon(nz(tc.want))), map[string]interface{}{"snapshots": tc.name})
+			}
+		}
+	}
+}
+
 // C08: emission is atomic.
 func C08(c *vh.Ctx) {
 	if c.Replay != "" {
@@ -309,6 +372,13 @@ func C08(c *vh.Ctx) {
 		}
 		if c.LoadReplay(&probe) == nil && probe.Long != "" {
 			c08LongCascade(c)
+			return
+		}
+		var sprobe struct {
+			Snapshots string `json:"snapshots"`
+		}
+		if c.LoadReplay(&sprobe) == nil && sprobe.Snapshots != "" {
+			c08Snapshots(c)
 			return
 		}
 		var cs c08Case
@@ -320,13 +390,16 @@ func C08(c *vh.Ctx) {
 	if c.Shard == 0 {
 		c08LongCascade(c)
 	}
+	if c.Shard == 1 || c.Shards == 1 {
+		c08Snapshots(c)
+	}
 	maxLen := c.Pick(4, 5)
 	progs := c08Programs(maxLen)
 	c.Bound("program_ops_max", maxLen)
 	if c.Shard == 0 {
 		c.Count("programs", int64(len(progs)))
 	}
-	c.Rule("every ECMAScript program = prefix over {emit m1, emit m2, set} (for programs of up to 3 operations m2 also ranges over 13 message shapes: maps with an emit / to / error key, messages addressed to the host's captain and timers machines, strings, numbers, arrays, empty and nested maps, booleans) (any order, up to the bound) optionally ended by one of {throw a string, throw an object with properties, throw an Error, throw null, return scalar, return array, loop until cancelled (cancel delivered at tick 3 through the harness context), emit an unserialisable value, return null, return fresh bindings, return empty bindings}; placed as the action at position 1, 2 or 3 of a chain of three emitting actions, or as the guard between them; error routing none / ActionErrorNode / ActionErrorBranches (the handler emits and resumes the chain); observed through Spec.Walk (per-stride Emitted and DoEmitted) and through sio.Crew.ProcessMsg (Result.Emitted); oracle: emitted == concatenation of the emits of the successfully completed actions in execution order; every case also for a machine that carries permanent bindings. Plus long cascades through a crew (3 to 130 walks, one or two emissions per walk, next to a machine that emits and then fails): Result.Emitted must be, batch by batch, what each walk emitted. non-trivial = program emits and then fails.")
+	c.Rule("every ECMAScript program = prefix over {emit m1, emit m2, set} (for programs of up to 3 operations m2 also ranges over 13 message shapes: maps with an emit / to / error key, messages addressed to the host's captain and timers machines, strings, numbers, arrays, empty and nested maps, booleans) (any order, up to the bound) optionally ended by one of {throw a string, throw an object with properties, throw an Error, throw null, return scalar, return array, loop until cancelled (cancel delivered at tick 3 through the harness context), emit an unserialisable value, return null, return fresh bindings, return empty bindings}; placed as the action at position 1, 2 or 3 of a chain of three emitting actions, or as the guard between them; error routing none / ActionErrorNode / ActionErrorBranches (the handler emits and resumes the chain); observed through Spec.Walk (per-stride Emitted and DoEmitted) and through sio.Crew.ProcessMsg (Result.Emitted); oracle: emitted == concatenation of the emits of the successfully completed actions in execution order; every case also for a machine that carries permanent bindings. Plus actions that go on editing what they have emitted (a value taken from the bindings, a local object, an array, the bindings themselves): each reported message is the value at the moment of its _.out. Plus long cascades through a crew (3 to 130 walks, one or two emissions per walk, next to a machine that emits and then fails): Result.Emitted must be, batch by batch, what each walk emitted. non-trivial = program emits and then fails.")
 	var idx uint64
 	for _, p := range progs {
 		for pos := 0; pos <= 3; pos++ {
